@@ -40,6 +40,21 @@ def run(index, rep):
     rep.guard(feedge, index, rep, flow)
     rep.guard(zero, index, rep, flow)
     rep.guard(lp_meat, index, rep)
+    rep.guard(no_alias_writes, index, rep)
+
+
+def no_alias_writes(index, rep):
+    """the series a round hands to the optimiser are what the herd run produced: none of them is rewritten in place through a local that is
+    the series' own storage"""
+    rule = "C05.STATE"
+    from .memo import series_changed_through_alias
+    hits = series_changed_through_alias(index, PARAMS, "Parameters")
+    for fn, st, name, src in hits:
+        rep.violation(rule, f"Parameters.{fn.name}: {name} is {src}",
+                      f"`{norm_src(st)[:80]}` changes `{name}` in place, and `{name}` is the stored series `{src}` itself (no copy): the series "
+                      "handed to the optimiser is silently rewritten (e.g. meat of the final round minus meat of round 1)", loc=loc(PARAMS, st))
+    if not hits:
+        rep.ok(rule, "no series of the hand-off tables is changed in place through an alias", detail="x = table[key].<lane> followed by x -= / x[...] = / x.fill")
 
 
 def lp_meat(index, rep):
